@@ -178,6 +178,19 @@ theorem sync_stderr_can_deadlock (K : Nat) :
     | childErr h => omega
     | drain n h _ _ => cases h
 
+/-- … and exactly that is the boundary: if everything the child ever writes to stderr fits into the pipe
+(`errOps prog ≤ K`), the synchronous reader gets through as well, under every schedule. The deadlock needs
+a child that writes more to stderr than the pipe holds — `close` waits for the child before it drains
+stderr (`wait()` first, `read_to_end` afterwards). -/
+theorem sync_ok_iff_stderr_fits (K : Nat) (hK : 1 ≤ K) (prog : List Bool) (hfit : errOps prog ≤ K) :
+    ∀ s, Reach K false (initState prog) s → ¬ Done s → ∃ t, Step K false s t := by
+  intro s hr
+  have hinv : s.err + errOps s.prog ≤ K := by
+    induction hr with
+    | refl => simpa [initState] using hfit
+    | step _ hs ih => exact sync_invariant hs ih
+  exact fun hd => sync_progress_small hK s hinv hd
+
 /-- The executable scheduler used by the driver takes only steps of the relation. -/
 theorem stepFn_sound (K : Nat) (async : Bool) (s t : PState) (c : Choice) (h : stepFn K async s c = some t) :
     Step K async s t := by
@@ -224,9 +237,19 @@ theorem stepFn_sound (K : Nat) (async : Bool) (s t : PState) (c : Choice) (h : s
     | true => simp [stepFn] at h
     | false => simp [stepFn] at h; subst h; exact .close
   | drain n =>
-    simp only [stepFn, Bool.and_eq_true, decide_eq_true_eq] at h
+    simp only [stepFn, Bool.and_eq_true, Bool.or_eq_true, decide_eq_true_eq] at h
     split at h
-    · rename_i hc; injection h with h; subst h; exact .drain n hc.1.1 hc.1.2 hc.2
+    · rename_i hc
+      injection h with h; subst h
+      cases async with
+      | true => exact .drain n rfl hc.1.2 hc.2
+      | false =>
+        have hp : prog = [] := by
+          rcases hc.1.1 with h | h
+          · cases h
+          · simpa using h
+        subst hp
+        exact .drainAfterWait n rfl hc.1.2 hc.2
     · cases h
 
 end RgVerif.Props.C18
